@@ -4,6 +4,7 @@ from . import gen_tables
 from . import gen_shape
 from . import gen_const
 from . import gen_units
+from . import gen_reduce
 from . import gen_tol
 from . import gen_l2flow
 
@@ -14,6 +15,7 @@ GENERATORS = {
     "GenShape": gen_shape.generate,
     "GenConst": gen_const.generate,
     "GenUnits": gen_units.generate,
+    "GenReduce": gen_reduce.generate,
     "GenTol": gen_tol.generate,
     "GenL2Flow": gen_l2flow.generate,
 }
@@ -21,3 +23,4 @@ from . import gen_loop; GENERATORS["GenLoop"] = gen_loop.generate
 from . import gen_wraptol; GENERATORS["GenWrapTol"] = gen_wraptol.generate
 from . import gen_batch; GENERATORS["GenBatch"] = gen_batch.generate
 from . import gen_cuboid; GENERATORS["GenCuboid"] = gen_cuboid.generate
+from . import gen_core; GENERATORS["GenCore"] = gen_core.generate
